@@ -32,7 +32,7 @@ int   __real_posix_memalign (void **, size_t, size_t);
 
 typedef struct { volatile uintptr_t ra0, ra1; volatile uint64_t calls, failed; } fi_site_t;
 
-typedef struct { void *p; size_t size; long call; int site; } fi_block_t;
+typedef struct { void *p; size_t size; long call, seq; int site; uintptr_t ra0, ra1; } fi_block_t;
 
 static struct {
     /* schedule */
@@ -46,7 +46,8 @@ static struct {
     /* totals for the whole process life (sanity) */
     uint64_t total_wrapped, total_window;
     /* live table */
-    long live, live_bytes;
+    long live, live_bytes, seq;
+    uintptr_t cur_ra0, cur_ra1;
     long bad_free;           /* free()/realloc() of a pointer that is not live, inside a window */
     void *bad_free_ptr;
     long last_fail_site;
@@ -70,7 +71,7 @@ static void fi_tab_insert (void *p, size_t size, long call, int site)
     if (!p) return;
     unsigned i = fi_hash (p);
     for (unsigned n = 0; n < FI_TABSIZE; n++, i = (i + 1) & (FI_TABSIZE - 1))
-        if (!fi_tab[i].p) { fi_tab[i].p = p; fi_tab[i].size = size; fi_tab[i].call = call; fi_tab[i].site = site; fi.live++; fi.live_bytes += (long) size; return; }
+        if (!fi_tab[i].p) { fi_tab[i].p = p; fi_tab[i].size = size; fi_tab[i].call = call; fi_tab[i].site = site; fi_tab[i].seq = ++fi.seq; fi_tab[i].ra0 = fi.cur_ra0; fi_tab[i].ra1 = fi.cur_ra1; fi.live++; fi.live_bytes += (long) size; return; }
     /* table full: cannot happen with the small scenarios; make it visible as a bad free later */
 }
 
@@ -142,8 +143,9 @@ static int fi_gate (uintptr_t ra0, uintptr_t ra1, int *site_out)
 #define FI_RA(ra0, ra1) do {                                                          \
         void **fp_ = (void **) __builtin_frame_address (0);                            \
         ra0 = (uintptr_t) __builtin_return_address (0); ra1 = 0;                       \
-        if (fi.on && fp_) { void **cfp_ = (void **) fp_[0];                            \
+        if (fp_) { void **cfp_ = (void **) fp_[0];                            \
             if (cfp_ > fp_ && (char *) cfp_ - (char *) fp_ < (1 << 20)) ra1 = (uintptr_t) cfp_[1]; } \
+        fi.cur_ra0 = ra0; fi.cur_ra1 = ra1;                                            \
     } while (0)
 
 __attribute__((noinline)) void *__wrap_malloc (size_t n)
@@ -200,16 +202,13 @@ static void fi_begin_execution (const long *single, int nsingle, long persist)
 static inline void fi_window_open (void)  { fi.on = 1; }
 static inline void fi_window_close (void) { fi.on = 0; }
 
-/* first live block allocated inside a window of the current execution (for leak reports) */
-static const fi_block_t *fi_first_window_block (void)
+/* oldest live block allocated after sequence number seq0 (for leak reports) */
+static const fi_block_t *fi_first_block_since (long seq0)
 {
     const fi_block_t *best = NULL;
     for (unsigned i = 0; i < FI_TABSIZE; i++)
-        if (fi_tab[i].p && fi_tab[i].call > 0 && (!best || fi_tab[i].call < best->call)) best = &fi_tab[i];
+        if (fi_tab[i].p && fi_tab[i].seq > seq0 && (!best || fi_tab[i].seq < best->seq)) best = &fi_tab[i];
     return best;
 }
-/* forget the window marks of the blocks that are still live (after a leak was reported, so that the
- * next execution does not blame them again) */
-static void fi_forget_marks (void) { for (unsigned i = 0; i < FI_TABSIZE; i++) if (fi_tab[i].p) fi_tab[i].call = 0; }
 
 #endif
